@@ -138,8 +138,9 @@ CreateClauses(ev, rows) ==
        <<"C11", "flat_space_size", ev.modes.fa => ev.adv.space_n = NActions>>,
        <<"C11", "flat_list_is_a_rearrangement_of_the_scenarios_actions",
          "perm" \in DOMAIN ev.adv => IsPerm(ev.adv.perm)>>,
+       \* (compared with one earlier environment: every earlier one was compared with its predecessors in turn)
        <<"C11", "same_index_mapping_for_every_environment",
-         \A e2 \in DOMAIN mode : mode[e2].perm = PermOfCreate(ev)>>,
+         DOMAIN mode = {} \/ mode[CHOOSE e2 \in DOMAIN mode : TRUE].perm = PermOfCreate(ev)>>,
        <<"C08", "initial_observation",
          /\ \A h \in Hosts : o[h] = InitObsRow(InitSt, ev.modes.fo, h)
          /\ ev.obs.aux = ZeroRow>>,
